@@ -117,6 +117,8 @@ pub struct ProcSpec {
     pub replay: Vec<u16>,
     pub stack_size: usize,
     pub log_events: bool,
+    /// threads of the simulated shared pool (see shim::rayon)
+    pub pool_size: u32,
 }
 
 impl ProcSpec {
@@ -129,6 +131,7 @@ impl ProcSpec {
             replay: Vec::new(),
             stack_size: 512 * 1024,
             log_events: true,
+            pool_size: 4,
         }
     }
     pub fn replaying(&self, trace: Vec<u16>, strict: bool) -> Self {
@@ -219,6 +222,7 @@ where
 {
     ENTROPY.with(|e| *e.borrow_mut() = Some((SplitMix64::new(spec.entropy_seed), 0)));
     let mut st = RunState::new(spec.mode.clone(), spec.sched_seed, spec.step_cap, spec.replay.clone());
+    st.pool_size = spec.pool_size.max(1);
     st.log_enabled = spec.log_events;
     rt::install(st);
 
